@@ -19,7 +19,8 @@ META = {
     "assumptions": [
         "reference: independent bracket search + weights; value=(1-t)v0+t v1 within 1e-12*(|v0|+|v1|); node targets must equal the node data exactly",
         "NaN rule: valid weight W of non-missing neighbours, result = renormalised value if W>1/2 else NaN; for scattered NaNs either the node-wise reading (a neighbour is missing if any element of its slice is NaN - what the code does) or the element-wise reading is accepted",
-        "nearest: node with the larger weight; exact half-way targets accept either node",
+        "nearest: node with the larger weight; targets within 1e-12 of half way accept either node",
+        "NaN threshold: a valid weight within 1e-12 of one half that is not exactly one half in rational arithmetic accepts either outcome (equally valid float evaluations of the weight differ in the last bit); exactly one half must give a missing value",
         "datetime targets are whole seconds (the library converts 'time' targets through to_datetime64, which truncates to seconds)",
         "spectra: NaN-free values; 1D moments compared with interp(a1*e)/interp(e) at 1e-9 where interp(e) > 1e-9*max(e)",
     ],
@@ -158,35 +159,36 @@ def build_dataset(c):
     return xarray.Dataset(data), raw
 
 
-def compare_interp(name, got, node, elem, ties, alt, axis, raw, classes, strict_nodewise=False):
-    """got must equal the node-wise or element-wise reference (or, on nearest ties, the other node)."""
+def compare_interp(name, got, node, elem, ties, alts, axis, raw, classes, strict_nodewise=False):
+    """got must equal the node-wise or element-wise reference; for targets whose weight is within rounding of
+    one half (see oracle.interp) any of the admissible alternatives is accepted."""
     got = np.asarray(got, dtype=float)
     require(got.shape == node.shape, "output_shape", f"{name}: {got.shape} vs {node.shape}")
     scale = np.nanmax(np.abs(raw)) if np.isfinite(np.nanmax(np.abs(raw))) else 1.0
-    tol = 1e-12 * max(scale, 1e-300)
+    tol = 1e-11 * max(scale, 1e-300)
 
     def same(a, b):
         with np.errstate(all="ignore"):
             return (np.abs(a - b) <= tol) | (np.isnan(a) & np.isnan(b))
-    ok_node = same(got, node)
-    ok_alt = same(got, alt)
-    ok_elem = same(got, elem)
-    # accept per target slice: whole slice must follow ONE reading
-    g = np.moveaxis(ok_node, axis, 0).reshape(ok_node.shape[axis], -1).all(axis=1)
-    e = np.moveaxis(ok_elem, axis, 0).reshape(ok_node.shape[axis], -1).all(axis=1)
-    a = np.moveaxis(ok_alt, axis, 0).reshape(ok_node.shape[axis], -1).all(axis=1) & ties
-    if strict_nodewise:
-        ok = g | a
-    else:
-        ok = g | e | a
+
+    def per_target(ok):
+        return np.moveaxis(ok, axis, 0).reshape(ok.shape[axis], -1).all(axis=1)
+    g = per_target(same(got, node))
+    e = per_target(same(got, elem))
+    a = np.zeros_like(g)
+    for alt in alts:
+        a |= per_target(same(got, alt))
+    a &= ties
+    ok = (g | a) if strict_nodewise else (g | e | a)
     if not ok.all():
         j = int(np.argmin(ok))
         gj = np.moveaxis(got, axis, 0)[j]
         nj = np.moveaxis(node, axis, 0)[j]
-        raise_detail = f"{name}: target #{j} got={gj.ravel()[:4]!r} reference={nj.ravel()[:4]!r}"
-        require(False, "piecewise_linear_value" , raise_detail)
+        require(False, "piecewise_linear_value", f"{name}: target #{j} got={gj.ravel()[:4]!r} reference={nj.ravel()[:4]!r}")
     if (~g & e).any():
         classes.append("elementwise_reading_used")
+    if (~g & ~e & a).any():
+        classes.append("rounding_level_half_weight")
 
 
 def run_axis(c):
@@ -289,15 +291,15 @@ def run_grid(c):
                                    nearest_neighbour=c["nearest"])
     ax = c["dims"].index("x")
     ay = c["dims"].index("y")
-    n1, _, t1, alt1 = OI.interp_axis(np.array(c["xa"]), arr, ax, c["ta"], nearest=c["nearest"])
-    n2, _, t2, alt2 = OI.interp_axis(np.array(c["xb"]), n1, ay, c["tb"], nearest=c["nearest"])
+    n1, _, t1, _ = OI.interp_axis(np.array(c["xa"]), arr, ax, c["ta"], nearest=c["nearest"])
+    n2, _, t2, _ = OI.interp_axis(np.array(c["xb"]), n1, ay, c["tb"], nearest=c["nearest"])
     require("field" in out, "variable_present", "field")
     got = np.asarray(out["field"].values, dtype=float)
     require(got.shape == n2.shape, "output_shape", f"{got.shape} vs {n2.shape}")
     with np.errstate(all="ignore"):
         ok = (np.abs(got - n2) <= 1e-11) | (np.isnan(got) & np.isnan(n2))
-    if c["nearest"] and (t1.any() or t2.any()):
-        pass  # half-way ties in either direction: skip exact comparison
+    if t1.any() or t2.any():
+        pass  # a weight within rounding of one half in either direction: skip the exact comparison
     else:
         require(ok.all(), "grid_interpolation_is_sequential_piecewise_linear",
                 lambda: f"got={got[~ok][:3]} ref={n2[~ok][:3]}")
@@ -366,12 +368,14 @@ def run_spectrum(c):
     require(type(out) is type(spec), "returns_same_kind_of_spectrum", f"{type(out)}")
     node, _, ties, alt = OI.interp_axis(xp, E, ax, tt, nearest=nearest)
     ref = np.where(np.isnan(node), ex, node)
-    refalt = np.where(np.isnan(alt), ex, alt)
+    refalts = [np.where(np.isnan(x), ex, x) for x in alt]
     got = np.asarray(out.variance_density.values, dtype=float)
     require(got.shape == ref.shape, "output_shape", f"{got.shape} vs {ref.shape}")
     scale = max(float(np.max(np.abs(E))), 1e-300)
     ok = np.abs(got - ref) <= 1e-12 * scale
-    okalt = np.abs(got - refalt) <= 1e-12 * scale
+    okalt = np.zeros(got.shape, dtype=bool)
+    for x in refalts:
+        okalt |= np.abs(got - x) <= 1e-12 * scale
     tie_b = np.moveaxis(np.broadcast_to(np.moveaxis(np.zeros(ref.shape, bool), ax, -1) | ties, np.moveaxis(ref, ax, -1).shape), -1, ax)
     require((ok | (okalt & tie_b)).all(), "spectrum_variance_density_interpolated",
             lambda: f"mode={mode} method={c['method']} got={got[~ok][:3]} ref={ref[~ok][:3]} extrap={ex}")
@@ -385,15 +389,18 @@ def run_spectrum(c):
             Mz = np.nan_to_num(M, nan=0.0)
             if np.isnan(M).any():
                 continue
-            num, _, _, numalt = OI.interp_axis(xp, Mz * E, ax, tt, nearest=nearest)
+            num, _, _, numalts = OI.interp_axis(xp, Mz * E, ax, tt, nearest=nearest)
             with np.errstate(all="ignore"):
                 r = num / node
-                ralt = numalt / alt
+                ralts = [na / aa for na, aa in zip(numalts, alt)]
             r = np.where(np.isnan(r), ex, r)
-            ralt = np.where(np.isnan(ralt), ex, ralt)
+            ralts = [np.where(np.isnan(x), ex, x) for x in ralts]
             g = np.asarray(getattr(out, m).values, dtype=float)
             well = np.nan_to_num(node, nan=0.0) > 1e-9 * scale
-            okm = (np.abs(g - r) <= 1e-9) | ((np.abs(g - ralt) <= 1e-9) & tie_b) | ~well
+            okalt_m = np.zeros(g.shape, dtype=bool)
+            for x in ralts:
+                okalt_m |= np.abs(g - x) <= 1e-9
+            okm = (np.abs(g - r) <= 1e-9) | (okalt_m & tie_b) | ~well
             okm &= ((g == ex) | ~np.moveaxis(np.broadcast_to(outside, np.moveaxis(g, ax, -1).shape), -1, ax))
             require(okm.all(), "moments_interpolated_energy_weighted",
                     lambda: f"{m}: got={g[~okm][:3]} ref={r[~okm][:3]} mode={mode} method={c['method']}")
